@@ -28,6 +28,9 @@ func SetSeed(seed uint64) {
 	chReplayM = false
 	chReplay = nil
 	chPos = 0
+	if chLog == nil {
+		chLog = make([]int, 0, 1<<18)
+	}
 	chLog = chLog[:0]
 	chRecord = true
 }
@@ -39,6 +42,9 @@ func SetReplay(list []int) {
 	chReplayM = true
 	chReplay = list
 	chPos = 0
+	if chLog == nil {
+		chLog = make([]int, 0, 1<<18)
+	}
 	chLog = chLog[:0]
 	chRecord = true
 }
@@ -76,8 +82,11 @@ func Choose(n int) int {
 		z ^= z >> 31
 		v = int(z % uint64(n))
 	}
-	if chRecord && len(chLog) < 1<<20 {
-		chLog = append(chLog, v)
+	if chRecord && len(chLog) < cap(chLog) {
+		// plain store into preallocated space: append would go through
+		// runtime.growslice, which reports to the race detector
+		chLog = chLog[:len(chLog)+1]
+		chLog[len(chLog)-1] = v
 	}
 	return v
 }
@@ -204,8 +213,9 @@ func runnable(except *Client) []*Client {
 func yield(kind int) {
 	c := cur
 	yields++
-	if traceOn && kind != YStep && len(trace) < 1<<16 {
-		trace = append(trace, int32(c.ID<<8|kind))
+	if traceOn && kind != YStep && len(trace) < cap(trace) {
+		trace = trace[:len(trace)+1]
+		trace[len(trace)-1] = int32(c.ID<<8 | kind)
 	}
 	var next *Client
 	switch cfg.Strategy {
@@ -347,6 +357,9 @@ func setup(sc SchedConfig, stepCap int64, n int) {
 	}
 	yields = 0
 	deadlock = false
+	if trace == nil {
+		trace = make([]int32, 0, 1<<16)
+	}
 	trace = trace[:0]
 	mainWake = make(chan struct{}, 1)
 	cur = nil
